@@ -174,8 +174,10 @@ def check_invariants(model, mode, hist):
         nonlocal nprobe
         nprobe += 1
         o = outputs_vec(p, model)
-        sc = max(np.abs(ref_out).max(), 1e-300)
-        e = np.abs(o - ref_out).max() / sc if np.all(np.isfinite(o)) else np.inf
+        fin = np.isfinite(ref_out)
+        sc = max(np.abs(ref_out[fin]).max(initial=0.0), 1e-300)
+        # non-finite reference entries (a documented singular point of the component) must be non-finite here too
+        e = np.abs(o[fin] - ref_out[fin]).max(initial=0.0) / sc if (np.array_equal(np.isfinite(o), fin)) else np.inf
         if not e <= tol:
             viol.append(dict(sig=dict(oracle="history_independence", probe=tag, observable="outputs", model=model.name, after_chk=st["chk"]), msg="%s after history %s: outputs differ from a fresh problem at point %d by %.2e" % (tag, hist, st["k"], e), measure=float(e)))
 
@@ -183,10 +185,12 @@ def check_invariants(model, mode, hist):
         nonlocal nprobe
         nprobe += 1
         t = totals_vec(p, model, T)
-        sc = np.maximum(np.abs(ref_tot).max(axis=1, keepdims=True), 1e-9 * max(np.abs(ref_tot).max(), 1e-300))
-        e = (np.abs(t - ref_tot) / sc).max() if np.all(np.isfinite(t)) else np.inf
+        fin = np.isfinite(ref_tot)
+        rt = np.where(fin, ref_tot, 0.0)
+        sc = np.maximum(np.abs(rt).max(axis=1, keepdims=True), 1e-9 * max(np.abs(rt).max(), 1e-300))
+        e = (np.abs(np.where(fin, t, 0.0) - rt) / sc).max() if np.array_equal(np.isfinite(t), fin) else np.inf
         if not e <= max(tol, 1e-9):
-            i, j = np.unravel_index(np.argmax(np.abs(t - ref_tot) / sc), t.shape)
+            i, j = np.unravel_index(np.argmax(np.abs(np.where(fin, t, 0.0) - rt) / sc), t.shape)
             viol.append(dict(sig=dict(oracle="history_independence", probe=tag, observable="totals", model=model.name, after_chk=st["chk"]), msg="%s after history %s: totals differ from a fresh problem at point %d by %.2e of the row scale (entry [%d,%d]: %.8g vs %.8g)" % (tag, hist, st["k"], e, i, j, t[i, j], ref_tot[i, j]), measure=float(e)))
 
     if st["consistent"]:
